@@ -443,7 +443,7 @@ class Grower:
 
 
 def grow_subgraph(g: G, rng, n_ops, prefix="", sig=None, kinds=None, share=0.0, shared_consts=None, p_unsupported=0.25,
-                  name_hazard=0.0, extra_outputs=0.3, allow_dead=0.1):
+                  name_hazard=0.0, extra_outputs=0.3, allow_dead=0.1, const_output=0.0):
     g.subgraph(name=(prefix or "main").encode())
     gr = Grower(g, rng, prefix, shared_consts)
     # inputs
@@ -484,6 +484,11 @@ def grow_subgraph(g: G, rng, n_ops, prefix="", sig=None, kinds=None, share=0.0, 
     if rng.random() < 0.05 and gr.inputs:
         outs.append(gr.inputs[0])
         gr.tags.add("input_is_output")
+    if const_output and rng.random() < const_output:
+        consts = [i for i, t in enumerate(sg.tensors) if t.type == TT.FLOAT32 and g.m.buffers[t.buffer].data is not None and i not in outs]
+        if consts:
+            outs.append(rng.choice(consts))
+            gr.tags.add("const_is_output")
     rng.shuffle(outs)
     # drop unused inputs (interpreter is fine with them, but keep graphs tidy): keep all
     if name_hazard and rng.random() < name_hazard and gr.produced:
